@@ -13,16 +13,18 @@ CONFIGS_THOROUGH = ["A", "R"]
 TECHNIQUE = ("field-read exhaustiveness of the parsed serde-attribute structs over the proc-macro crate's MIR; panic reachability and API-misuse rules (identifier "
              'construction from arbitrary strings, splitting at letters) in the naming code; decision structure of the word-boundary test in the variant case '
              'converter')
-LEVEL_TEXT = ("Decides clauses C16-a..d: every field of the derive's ContainerAttributes / FieldAttributes / VariantAttributes that stands for a serde attribute "
-              'changing the JSON shape is read somewhere outside its parser (an attribute that is parsed but never consulted cannot be honoured); the case converters'
-              ' reach no panicking string slicing that is not guarded, property and variant names are never turned into `Ident`s from converted or user-given strings'
-              ' (serde names need not be identifiers: kebab-case, `rename = "a-b"`), and an identifier is never split at letters (which would drop them); the '
-              "snake_case variant converter (on which kebab and the SCREAMING forms are built) pushes its `_` separator under exactly serde_derive's two per-"
-              'character tests -- upper-case and not the first character -- and pushes the lower-cased character unconditionally; no name taken from an explicit '
-              '`rename` attribute reaches a container case conversion (reaching definitions of the name variable), so an explicit rename wins as in serde; on the '
-              'camelCase arm of the field converter the head of the PascalCase form is what gets lower-cased (`_id` -> `Id` -> `id`), on that of the variant '
-              'converter the head of the name; in the PascalCase loop the pending-capital flag is cleared on every path of an iteration that found it set (whatever '
-              'character follows the `_` takes the capital). Decides these clauses, not agreement of the derived schema with serde_derive for all type definitions.')
+LEVEL_TEXT = ("Decides clauses C16-a..d: every field of the derive's ContainerAttributes / FieldAttributes / VariantAttributes that stands for a serde attribute chan"
+              'ging the JSON shape is read somewhere outside its parser (an attribute that is parsed but never consulted cannot be honoured); the case converters rea'
+              'ch no panicking string slicing that is not guarded, property and variant names are never turned into `Ident`s from converted or user-given strings (se'
+              'rde names need not be identifiers: kebab-case, `rename = "a-b"`), and an identifier is never split at letters (which would drop them); the snake_case '
+              "variant converter (on which kebab and the SCREAMING forms are built) pushes its `_` separator under exactly serde_derive's two per-character tests -- "
+              'upper-case and not the first character -- and pushes the lower-cased character unconditionally; no name taken from an explicit `rename` attribute reac'
+              'hes a container case conversion (reaching definitions of the name variable), so an explicit rename wins as in serde; on the camelCase arm of the field'
+              ' converter the head of the PascalCase form is what gets lower-cased (`_id` -> `Id` -> `id`), on that of the variant converter the head of the name; in'
+              ' the PascalCase loop the pending-capital flag is cleared on every path of an iteration that found it set (whatever character follows the `_` takes the'
+              " capital). C16-g: in the field loops of schema_of_fields (predicate helpers expanded) no path from reading a field's attributes to a push of that fiel"
+              "d's schema avoids the edge flag == false, for each of serde's skip, skip_serializing and skip_deserializing separately. Decides these clauses, not agr"
+              'eement of the derived schema with serde_derive for all type definitions.')
 
 ATTR = "ohkami_macros::openapi::attributes::serde::attributes::"
 # serde attributes that do not change the serialized shape / the set of accepted documents described by the schema
@@ -52,6 +54,7 @@ def run(ck, progs):
         ck.guard("C16-c DECISION word boundary", lambda: c16c(ck, prog))
         ck.guard("C16-e DECISION camelCase head", lambda: c16e(ck, prog))
         ck.guard("C16-f MUSTPASS PascalCase flag", lambda: c16f(ck, prog))
+        ck.guard("C16-g DECISION each skip attribute skips", lambda: c16g(ck, prog))
         ck.guard("C16-d ORDER rename precedence", lambda: c16d(ck, prog))
     ck.config = None
 
@@ -346,3 +349,59 @@ def c16d(ck, prog):
     # floors per kind of name (a shared helper may serve several call sites: the count of sites is not the invariant)
     ck.floor(R, "case conversions of field names in the generator", kinds.get("apply_to_field", 0), 1)
     ck.floor(R, "case conversions of variant names in the generator", kinds.get("apply_to_variant", 0), 1)
+
+
+def c16g(ck, prog):
+    """serde leaves a field out of the serialized shape under `skip` or `skip_serializing`, and out of the accepted input
+    under `skip` or `skip_deserializing`; the schema generator leaves a field out when any one of the three is set. In the
+    field loops of schema_of_fields (attribute helpers expanded), no path from the point where a field's attributes were
+    read to a push of that field's schema avoids the edge `<flag> is false`, for each of the three flags separately."""
+    from .lib import pathsens
+    R = "C16-g DECISION each skip attribute skips"
+    fs = prog.find(r"^ohkami_macros::openapi::derive_schema::schema_of_fields$")
+    if len(fs) != 1:
+        raise AnchorLost("schema_of_fields not found")
+    f = prog.inlined(fs[0], 2, lambda caller, callee: callee.crate == "ohkami_macros" and callee.locals and callee.locals[0] == "bool" and len(callee.blocks) < 40)       # predicate helpers, methods or free functions
+    from .lib.bound import natural_loops
+    loops = natural_loops(f)
+    # (the newtype arm reads the attributes of its single field outside any loop and has nothing to leave out)
+    news = [c for c in f.calls() if c.name == "new" and re.search(r"attributes::FieldAttributes::new$", c.callee or "") and any(c.bb in body for body in loops.values())]
+    pushes = [c for c in f.calls() if c.name == "push" and re.search(r"Vec::<T, A>::push$|Vec::<T>::push$", c.callee or "")]
+    ck.floor(R, "field loops (FieldAttributes::new sites)", len(news), 2)
+    ck.floor(R, "schema pushes", len(pushes), 3)
+
+    def flag_false_edge(flag):
+        def test(fn, b, s, labs, known):
+            t = fn.blocks[b]["t"]
+            d = t.get("discr")
+            if not d or d[0] not in ("c", "m") or t.get("dty") != "bool":
+                return False
+            projs = d[1][1]
+            if not projs:
+                # `_t = copy (attrs.serde).flag; switchInt(move _t)`
+                for st in reversed(fn.blocks[b]["st"]):
+                    if st["k"] == "=" and st["p"] == [d[1][0], []]:
+                        if st["r"][0] == "use" and st["r"][1][0] in ("c", "m"):
+                            projs = st["r"][1][1][1]
+                        break
+            if not projs:
+                # the result of an expanded predicate helper whose last operand is returned as is (`a || b || flag`)
+                sym = known.get(d[1][0])
+                if isinstance(sym, tuple) and sym and sym[0] == "p":
+                    return sym[-1] == flag and labs == {0}
+            return bool(projs) and projs[-1][0] == "f" and projs[-1][2] == flag and labs == {0}
+        return test
+    for i, nw in enumerate(news):
+        mine = [p_ for p_ in pushes if f.dominates(nw.bb, p_.bb) and not any(f.dominates(o.bb, p_.bb) and f.dominates(nw.bb, o.bb) and o is not nw for o in news)]
+        for flag in ("skip", "skip_serializing", "skip_deserializing"):
+            esc = None
+            for p_ in mine:
+                pth = pathsens.path_avoiding_edges(f, prog, nw.target, p_.bb, lambda facts: False, constprop=True, avoid=(nw.bb,), raw_edge_ok=flag_false_edge(flag))
+                if pth is not None:
+                    esc = (p_, pth)
+                    break
+            ok = bool(mine) and esc is None
+            ck.ob(R, "loop#%d:%s" % (i, flag), ok, f.loc(esc[0].sp) if esc else f.loc(nw.sp),
+                  "" if ok else "a field carrying #[serde(%s)] (alone) still gets a property/element in the derived schema (path bb%s): serde leaves the field out of %s, so values serde writes (or accepts) do not validate" % (
+                      flag, "->".join(map(str, esc[1][:10])) if esc else "?", "the serialized shape" if flag != "skip_deserializing" else "the accepted input"),
+                  how="every path to the %d push(es) of this loop takes the edge `%s == false`" % (len(mine), flag))
